@@ -34,6 +34,20 @@ def hook_registrations(mod: Module) -> Dict[str, Dict[str, Tuple[str, ast.AST]]]
                 t = norm(c.args[0]).split(".")[-1]
                 kind = "structure" if c.func.attr == "register_structure_hook" else "unstructure"
                 out.setdefault(t, {})[kind] = (c.args[1].id, c)
+            elif len(c.args) == 2 and all(isinstance(a, ast.Name) for a in c.args) and isinstance(parent(enclosing_stmt(c)), ast.For) \
+                    and isinstance(parent(enclosing_stmt(c)).target, ast.Tuple) and isinstance(parent(enclosing_stmt(c)).iter, (ast.Tuple, ast.List)):  # type: ignore[union-attr]
+                # table-driven registration: `for t, s, u in ((UUID, structure_uuid, unstructure_uuid), ...): register(t, s)`
+                loop = parent(enclosing_stmt(c))
+                names = [e.id if isinstance(e, ast.Name) else None for e in loop.target.elts]  # type: ignore[union-attr]
+                kind = "structure" if c.func.attr == "register_structure_hook" else "unstructure"
+                for row in loop.iter.elts:  # type: ignore[union-attr]
+                    if not (isinstance(row, (ast.Tuple, ast.List)) and len(row.elts) == len(names)):
+                        raise AnalysisError(f"hook registration table row `{norm(row)[:60]}` does not match the loop target")
+                    env = dict(zip(names, row.elts))
+                    t_e, f_e = env.get(c.args[0].id), env.get(c.args[1].id)  # type: ignore[union-attr]
+                    if not (isinstance(t_e, (ast.Name, ast.Attribute)) and isinstance(f_e, ast.Name)):
+                        raise AnalysisError(f"hook registration table row `{norm(row)[:60]}` is not (<Type>, <function>, ...)")
+                    out.setdefault(norm(t_e).split(".")[-1], {})[kind] = (f_e.id, c)
             else:
                 # registration through a loop / table: the recogniser cannot name type and function - fail closed, not a finding
                 raise AnalysisError(f"hook registration `{norm(c)[:70]}` is not of the form register_*_hook(<Type>, <function>) at module level")
